@@ -204,7 +204,7 @@ func (p *parser) value(inSexp bool) *refmodel.Value {
 		case isIdentStart(c):
 			start := p.pos
 			id := p.ident()
-			if kw := p.keyword(id); kw != nil {
+			if kw := p.keyword(id, inSexp); kw != nil {
 				v = kw
 				break
 			}
@@ -261,7 +261,7 @@ func (p *parser) symOf(id string, start int) refmodel.Sym {
 
 // keyword handles null / null.T / true / false / nan once the identifier has been read.
 // Returns nil if id is not a keyword.
-func (p *parser) keyword(id string) *refmodel.Value {
+func (p *parser) keyword(id string, inSexp bool) *refmodel.Value {
 	var v *refmodel.Value
 	switch id {
 	case "null":
@@ -282,7 +282,11 @@ func (p *parser) keyword(id string) *refmodel.Value {
 	default:
 		return nil
 	}
-	p.needStop("keyword " + id)
+	// Inside an s-expression an operator may follow a keyword directly ((true.) is true then '.'):
+	// the stop-character rule of the specification speaks of numbers and timestamps only.
+	if !(inSexp && isOp(p.peek())) {
+		p.needStop("keyword " + id)
+	}
 	return v
 }
 
